@@ -138,6 +138,11 @@ func (c17) Gen(rng *rand.Rand, tier string, emit func(string)) {
 			}
 		}
 	}
+	// the C reader (kseq + zlib, the stdin path of the commands) at every truncation point of a gzip file
+	zk := c17Compress("gz", c17FileData(6))
+	for k := 2; k <= len(zk); k++ {
+		emit(fmt.Sprintf("kseq gz nrec=6 cut=%d", k))
+	}
 	// bit flips
 	nflip := 40
 	if tier == "thorough" {
@@ -248,6 +253,8 @@ func (c17) Exec(c string) (string, []Fail) {
 		return c17File(f)
 	case f[0] == "cmd" && len(f) == 6:
 		return c17Cmd(f)
+	case f[0] == "kseq" && len(f) == 4:
+		return c17Kseq(f)
 	}
 	return "bad-op", nil
 }
@@ -292,6 +299,7 @@ func c17File(f []string) (string, []Fail) {
 	os.WriteFile(path, z, 0o644)
 	// what the decompression stack (the toolkit's own opener) says about these bytes
 	n, class := 0, "eof"
+	var decoded []byte
 	openFailed := false
 	guard(func() string {
 		r, err := obiformats.Ropen(path)
@@ -309,6 +317,7 @@ func c17File(f []string) (string, []Fail) {
 		for err == nil {
 			var nn int
 			nn, err = r.Read(buf)
+			decoded = append(decoded, buf[:nn]...)
 			n += nn
 		}
 		raw := n == len(z) // not recognised as a compressed stream: the damaged bytes are read as they are
@@ -362,7 +371,7 @@ func c17File(f []string) (string, []Fail) {
 	}
 	if res == "ok" || res == "empty" {
 		// accepted: then the file must have delivered the complete data
-		if n != len(full) || nrecRead != nrec {
+		if n != len(full) || nrecRead != nrec || (class != "raw" && !bytes.Equal(decoded, full)) {
 			sig := "file." + codec + ".accepted-damaged"
 			if class == "eof" {
 				sig = "file." + codec + ".codec-reports-clean-eof" // the decompression library itself hides the damage
@@ -452,4 +461,45 @@ func repoCommandC17(name string) (string, error) {
 	}
 	c17CmdOnce[name] = out
 	return out, nil
+}
+
+// c17Kseq reads a truncated gzip file through ReadFastSeqFromFile (C kseq over zlib gzread: the reader
+// behind `obiconvert < file`); a truncated stream must end in log.Fatal, never in a normal end.
+func c17Kseq(f []string) (string, []Fail) {
+	codec, nrec, z, label, ok := c17Damage([]string{"file", f[1], f[2], f[3]})
+	if !ok || codec != "gz" {
+		return "bad-op", nil
+	}
+	full := c17Compress("gz", c17FileData(nrec))
+	dir, _ := os.MkdirTemp("", "c17k")
+	defer os.RemoveAll(dir)
+	path := filepath.Join(dir, "t.fasta.gz")
+	os.WriteFile(path, z, 0o644)
+	got := -1
+	res := guardT(10*time.Second, func() string {
+		it, err := obiformats.ReadFastSeqFromFile(path, obiformats.OptionsParallelWorkers(1))
+		if err != nil {
+			return "fail"
+		}
+		cnt := 0
+		for it.Next() {
+			cnt += it.Get().Len()
+		}
+		got = cnt
+		return "ok"
+	})
+	if res == "fatal" {
+		res = "fail"
+	}
+	var fails []Fail
+	truncated := len(z) < len(full)
+	if truncated && res == "ok" {
+		fails = append(fails, Fail{Sig: "kseq.gz.accepted-truncated", Text: fmt.Sprintf("%s: the C reader ended normally with %d of %d records", label, got, nrec)})
+	}
+	if !truncated && (res != "ok" || got != nrec) {
+		fails = append(fails, Fail{Sig: "kseq.gz.complete-file", Text: fmt.Sprintf("complete file: %s with %d of %d records", res, got, nrec)})
+	}
+	// for the model the verdict of zlib on the truncated stream is: truncated <=> not the whole file
+	caseOverride = fmt.Sprintf("kseq gz nrec=%d cut=%d of=%d", nrec, len(z), len(full))
+	return res, fails
 }
